@@ -149,6 +149,12 @@ def ffRaw (opFull : String) (args : List String) : Option String := do
         if asm then Gen.FFAsm.Butterfly x0 x1 x2 x3 y0 y1 y2 y3 else Gen.FF.butterflyGeneric x0 x1 x2 x3 y0 y1 y2 y3
       pure s!"{show4 (a0,a1,a2,a3)} {show4 (b0,b1,b2,b3)}"
     | _, _ => none
+  | "butterflyab", [x] =>
+    -- Butterfly(a, a): both arguments the same element
+    match (← parseLimbs? x) with
+    | [x0,x1,x2,x3] =>
+      pure (show4 (if asm then Gen.FFAsm.Butterfly_ab x0 x1 x2 x3 else Gen.FF.butterflyGeneric_ab x0 x1 x2 x3))
+    | _ => none
   | "mulby3", [x] | "mulby5", [x] | "mulby13", [x] =>
     let c := if op = "mulby3" then 3 else if op = "mulby5" then 5 else 13
     match (← parseLimbs? x) with
@@ -229,6 +235,10 @@ def ffgRaw (opFull : String) (args : List String) : Option String := do
       let (a0, b0) := Gen.FFG.butterflyGeneric x0 y0
       pure s!"{show1 a0} {show1 b0}"
     | _, _ => none
+  | "butterflyab", [x] =>
+    match (← parseLimbs? x) with
+    | [x0] => pure (show1 (Gen.FFG.butterflyGeneric_ab x0))
+    | _ => none
   | "mulby3", [x] | "mulby5", [x] | "mulby13", [x] =>
     let c := if op = "mulby3" then 3 else if op = "mulby5" then 5 else 13
     match (← parseLimbs? x) with
@@ -260,6 +270,7 @@ def rawSpec (m : Nat) (nl : Nat) (opFull : String) (args : List String) : Option
   | "reduce", [x] => pure (out (if x < m then x else x - m))
   | "halve", [x] => pure (out (x * invMod 2 m % m))
   | "butterfly", [x, y] => pure (out ((x + y) % m) ++ " " ++ out ((x + (m - y % m)) % m))
+  | "butterflyab", [x] => if nl = 4 then pure (out ((x + x) % m)) else none
   | "mulby3", [x] => pure (out (3 * x % m))
   | "mulby5", [x] => pure (out (5 * x % m))
   | "mulby13", [x] => pure (out (13 * x % m))
